@@ -349,6 +349,7 @@ pub fn c04(tier: Tier) -> i32 {
             bump(c, "language_laws_skipped_unspecified", 1);
         }
         let cm_d1 = build_capture_model_with(&e.ast, &Deviations { d1: true, ..Default::default() });
+        let mirror_dfa = if refmodel::lang::has_tree(&e.ast) { Dfa::new(&lang::mirror_regex(&e.ast)).ok() } else { None };
         let mut gap_cache = std::collections::HashMap::new();
         let mut gap_cache_d1 = std::collections::HashMap::new();
         let mut reported_alarm = false;
@@ -386,10 +387,15 @@ pub fn c04(tier: Tier) -> i32 {
                 && !path.contains("//")
                 && !(u2 && path.starts_with('/'))
                 && !(u3 && !path.starts_with('/'));
-            if specified_here && !conforming {
+            // a match outside the documented language that a recorded C01 deviation (D1 / D4,
+            // the encoder's mirror) explains is left to C01; any other one is judged here too
+            let explained = !conforming
+                && refmodel::lang::has_tree(&e.ast)
+                && mirror_dfa.as_ref().map_or(false, |d| d.accepts(path));
+            if specified_here && explained {
                 nonconforming += 1;
             }
-            let specified_here = specified_here && conforming;
+            let specified_here = specified_here && !explained;
             let bad = capture_laws(g, &e.ast, &cm, specified_here, path, &mut gap_cache);
             if !bad.is_empty() && !reported_alarm {
                 reported_alarm = true;
@@ -414,7 +420,7 @@ pub fn c04(tier: Tier) -> i32 {
         });
         bump(c, "paths", paths);
         bump(c, "matching_pairs", matching);
-        bump(c, "matches_outside_reference_language_left_to_C01", nonconforming);
+        bump(c, "matches_explained_by_recorded_C01_deviation_left_to_C01", nonconforming);
         if !complete {
             bump(c, "expressions_capped", 1);
         }
